@@ -313,4 +313,50 @@ theorem delete_around_payload (S : Schema) (hdet : DetS S) (hleaf : PM.FromDom.L
   subst hs2
   exact insertAt_zero_openValid S sl res gap.content (gap_to_end_valid S hrt hv gap hgap) hleft hval hres
 
+/-! ### every replace-around answer: the gap is `[to, to.end())`, the structure flag is not set -/
+
+theorem replaceStep_around_shape (S : Schema) (doc : Node) (f t : Nat) (req : Slice)
+    (F T G1 G2 : Nat) (sl : Slice) (ins : Nat) (b : Bool)
+    (h : replaceStep S doc f t req = .ok (some (.replaceAround F T G1 G2 sl ins b))) :
+    b = false ∧ F = f ∧ ∃ rt, doc.resolve t = some rt ∧ G1 = rt.pos ∧ G2 = rt.end_ rt.depth := by
+  unfold replaceStep at h
+  split at h
+  · simp [pure, Except.pure] at h
+  · split at h
+    · rename_i rf rt hf ht
+      split at h
+      · simp [throw, throwThe, MonadExceptOf.throw] at h
+      · have := pure_ok h
+        simp at this
+      · unfold fitterFit at h
+        obtain ⟨st0, _, h⟩ := FM.bind_ok h
+        obtain ⟨st1, _, h⟩ := FM.bind_ok h
+        obtain ⟨mi, _, h⟩ := FM.bind_ok h
+        simp only at h
+        obtain ⟨target, _, h⟩ := FM.bind_ok h
+        obtain ⟨c, _, h⟩ := FM.bind_ok h
+        cases c with
+        | none => simp [pure, Except.pure] at h
+        | some c =>
+          simp only at h
+          unfold fitEmit at h
+          simp only at h
+          cases mi with
+          | none =>
+            simp only at h
+            split at h
+            · have := pure_ok h
+              simp at this
+            · simp [pure, Except.pure] at h
+          | some p =>
+            simp only at h
+            split at h
+            · simp [throw, throwThe, MonadExceptOf.throw] at h
+            · have := pure_ok h
+              simp only [Option.some.injEq, Step.replaceAround.injEq] at this
+              obtain ⟨e1, _, e3, e4, _, _, e7⟩ := this
+              have R := resolve_resolved hf
+              exact ⟨e7.symm, by rw [← e1, R.pos_eq], rt, ht, e3.symm, e4.symm⟩
+    · simp [throw, throwThe, MonadExceptOf.throw] at h
+
 end PM
